@@ -171,88 +171,80 @@ fn c03p_pipeline_witness() {
 }
 
 // =================================================================================================
-// C03: ZiPatch::apply over the in-memory file system model (support/memfs.rs, wired in through
-// registry.TRANSFORMS) and the format! engine model.  The patch is assembled byte by byte: chunk
-// kinds, ids and lengths are concrete (shape), offsets / counts / payload bytes symbolic.
+// C03: the two file-writing kernels of ZiPatch::apply (delete / expand and the zero-fill after add),
+// run over the in-memory file model (support/memfs.rs, wired in through registry.TRANSFORMS).
+// Whole-`apply` harnesses were written and are kept in notes/apply_harnesses_not_registered.rs.txt
+// with the measured reason they do not decide.
 // =================================================================================================
 use crate::verif_support::memfs;
-use crate::verif_support::refs::{ascii_utf8_validation, naive_memchr, naive_memrchr};
 
-struct PB { b: [u8; memfs::PATCH_CAP], n: usize }
-impl PB {
-    fn new() -> Self {
-        let mut p = PB { b: [0; memfs::PATCH_CAP], n: 0 };
-        p.put(&[0x91, b'Z', b'I', b'P', b'A', b'T', b'C', b'H', 0x0d, 0x0a, 0x1a, 0x0a]);
-        p
-    }
-    fn put(&mut self, x: &[u8]) { let mut i = 0; while i < x.len() { self.b[self.n] = x[i]; self.n += 1; i += 1; } }
-    /// SQPK chunk: size, "SQPK", inner size, command letter, body, CRC (sizes and CRC are not interpreted by apply)
-    fn sqpk(&mut self, op: u8, body: &[u8]) {
-        self.put(&((body.len() as u32 + 5).to_be_bytes()));
-        self.put(b"SQPK");
-        self.put(&((body.len() as u32 + 5).to_be_bytes()));
-        self.put(&[op]);
-        self.put(body);
-        self.put(&[0xde, 0xad, 0xbe, 0xef]);
-    }
-    fn eof(&mut self) { self.put(&[0, 0, 0, 0]); self.put(b"EOF_"); }
-    fn install(&self) { memfs::install_patch("p.patch", &self.b[..self.n]); }
-}
-fn target_info_body(platform: u8) -> [u8; 123] {
-    let mut t = [0u8; 123];
-    t[4] = platform;
-    t[5] = 0xFF; t[6] = 0xFF; // region Global
-    t
-}
-/// 'D' / 'E' body: 3 reserved, main id, sub id, file id, block offset (units of 128), block count, 4 reserved
-fn delete_body(main_id: u16, sub_id: u16, file_id: u32, offset_units: u32, blocks: u32) -> [u8; 23] {
-    let mut d = [0u8; 23];
-    let (m, s, f, o, n) = (main_id.to_be_bytes(), sub_id.to_be_bytes(), file_id.to_be_bytes(), offset_units.to_be_bytes(), blocks.to_be_bytes());
-    d[3] = m[0]; d[4] = m[1]; d[5] = s[0]; d[6] = s[1];
-    let mut i = 0;
-    while i < 4 { d[7 + i] = f[i]; d[11 + i] = o[i]; d[15 + i] = n[i]; i += 1; }
-    d
-}
 /// the empty-block header written by delete / expand: block size 128, 0, 0, block count - 1, 0 (little-endian i32 each)
-fn empty_block_byte(k: usize, blocks: u32) -> u8 {
-    if k < 4 { 128u32.to_le_bytes()[k] } else if k >= 12 && k < 16 { (blocks - 1).to_le_bytes()[k - 12] } else { 0 }
+fn empty_block_byte(k: usize, blocks: u64) -> u8 {
+    if k < 4 { 128u32.to_le_bytes()[k] } else if k >= 12 && k < 16 { ((blocks - 1) as u32).to_le_bytes()[k - 12] } else { 0 }
 }
 
-fn apply_delete_or_expand(op: u8) {
+/// `write_empty_file_block_at(file, offset, n)`: the n x 128 bytes from `offset` become an empty-block header followed
+/// by zeros; every other byte of the file keeps its value and the file only grows when the range ends behind its end.
+/// Offset and block count are concrete per instance (a symbolic-size bulk write into the file model did not decide
+/// in 900 s); the previous file content (512 bytes) is symbolic.
+fn empty_block_case(units: u64, blocks: u64) {
     memfs::reset();
-    let off: u32 = kani::any();
-    kani::assume(off <= 3);
-    let blocks: u32 = kani::any();
-    kani::assume(blocks >= 1 && blocks <= 2);
-    let mut p = PB::new();
-    p.sqpk(b'T', &target_info_body(0));
-    p.sqpk(op, &delete_body(0x0a, 0x0102, 3, off, blocks));
-    p.eof();
-    p.install();
-    let r = ZiPatch::apply("/g", "p.patch");
+    let old: [u8; 512] = kani::any();
+    memfs::add_file("/g/d.dat0", &old);
+    let f = OpenOptions::new().write(true).create(true).truncate(false).open("/g/d.dat0").unwrap();
+    let offset = units * 128;
+    let r = write_empty_file_block_at(&f, offset, blocks);
     assert!(r.is_ok());
     assert!(!memfs::limit_hit());
-    // category 0a, expansion 1, chunk 02, platform win32, data file 3 -- and nothing else
-    let slot = memfs::find("/g/sqpack/ex1/0a0102.win32.dat3").expect("data file created");
-    assert_eq!(memfs::file_count(), 1);
-    let start = off as usize * 128;
-    assert_eq!(memfs::file_len(slot), start + blocks as usize * 128);
+    let slot = memfs::find("/g/d.dat0").unwrap();
+    let start = offset as usize;
+    let end = start + blocks as usize * 128;
+    assert_eq!(memfs::file_len(slot), if end > 512 { end } else { 512 });
     let k: usize = kani::any();
     kani::assume(k < memfs::file_len(slot));
-    let want = if k < start { 0 } else if k < start + 20 { empty_block_byte(k - start, blocks) } else { 0 };
+    let want = if k >= start && k < start + 20 { empty_block_byte(k - start, blocks) } else if k >= start && k < end { 0 } else if k < 512 { old[k] } else { 0 };
     assert_eq!(memfs::file_byte(slot, k), want);
-    kani::cover!(off == 3 && blocks == 2);
-    kani::cover!(off == 0 && blocks == 1);
+    assert_eq!(memfs::file_count(), 1);
+    kani::cover!(k == start + 12);
+    kani::cover!(k + 1 == memfs::file_len(slot));
 }
 #[kani::proof]
-#[kani::unwind(300)]
-#[kani::stub(core::str::validations::run_utf8_validation, ascii_utf8_validation)]
-#[kani::stub(core::slice::memchr::memchr_aligned, naive_memchr)]
-#[kani::stub(core::slice::memchr::memrchr, naive_memrchr)]
-fn c03_apply_delete_data() { apply_delete_or_expand(b'D'); }
+#[kani::unwind(70)]
+fn c03_empty_block_at0_1block() { empty_block_case(0, 1); }
 #[kani::proof]
-#[kani::unwind(300)]
-#[kani::stub(core::str::validations::run_utf8_validation, ascii_utf8_validation)]
-#[kani::stub(core::slice::memchr::memchr_aligned, naive_memchr)]
-#[kani::stub(core::slice::memchr::memrchr, naive_memrchr)]
-fn c03_apply_expand_data() { apply_delete_or_expand(b'E'); }
+#[kani::unwind(70)]
+fn c03_empty_block_at2_2blocks() { empty_block_case(2, 2); }
+#[kani::proof]
+#[kani::unwind(70)]
+fn c03_empty_block_at3_3blocks_grows_file() { empty_block_case(3, 3); }
+#[kani::proof]
+#[kani::unwind(70)]
+fn c03_empty_block_behind_end_leaves_gap() { empty_block_case(5, 1); }
+
+/// `wipe(file, n)` writes n zero bytes at the current position and nothing else (position / length concrete per instance)
+fn wipe_case(pos: u64, n: usize) {
+    memfs::reset();
+    let old: [u8; 300] = kani::any();
+    memfs::add_file("/g/w", &old);
+    let f = OpenOptions::new().write(true).create(true).truncate(false).open("/g/w").unwrap();
+    (&f).seek(SeekFrom::Start(pos)).unwrap();
+    assert!(wipe(&f, n).is_ok());
+    assert!(!memfs::limit_hit());
+    let slot = memfs::find("/g/w").unwrap();
+    let (p, e) = (pos as usize, pos as usize + n);
+    assert_eq!(memfs::file_len(slot), if n > 0 && e > 300 { e } else { 300 });
+    let k: usize = kani::any();
+    kani::assume(k < memfs::file_len(slot));
+    let want = if k >= p && k < e { 0 } else if k < 300 { old[k] } else { 0 };
+    assert_eq!(memfs::file_byte(slot, k), want);
+    kani::cover!(true);
+}
+#[kani::proof]
+#[kani::unwind(70)]
+fn c03_wipe_inside_file() { wipe_case(17, 130); }
+#[kani::proof]
+#[kani::unwind(70)]
+fn c03_wipe_nothing() { wipe_case(40, 0); }
+#[kani::proof]
+#[kani::unwind(70)]
+fn c03_wipe_across_end() { wipe_case(250, 256); }
